@@ -1,2 +1,4 @@
 //! Independent, deliberately naive reference models driven only by block data.
+pub mod inscriptions;
+pub mod runes;
 pub mod sats;
